@@ -170,6 +170,8 @@ contract(M + "FortranReaderBase.handle_inline_comment",
         "quote_state_is_a_quote": "result[1] is None or result[1] == \"'\" or result[1] == '\"'",
     },
     raises=[],
+    # undecided by all three solvers in every stage (nested quote positions inside recursive nq); decided on the bounded domain
+    bounded_clauses=["bang_inside_open_literal_is_kept@ret3"],
     receiver="(lambda r: (r.set_format(FortranFormat(True, False)), r)[1])(FortranStringReader('x = 1\\n', ignore_comments=False))",
     domain=dict(line="strings(\"a'\\\"! \", N)", lineno="[1]", quotechar="[None, \"'\", '\"']", buffer_comments_to_fifo="[True, False]",
                 _size=dict(quick=6, thorough=8)),
